@@ -445,34 +445,37 @@ POSITIVE = ["mu", "theta", "clock_rate", "wshape", "kappa", "cgd_alpha", "cgd_ra
             "gtr_rates", "raw_rates", "cc_x", "kappa_rate", "vbase", "v_neg_slice", "v_long", "v_head", "v_bool", "v_first"]
 REALS = ["loc", "cat_ab", "cat_a", "lin_x", "log_scale", "log_kappa"]
 SIMPLEX = ["hky_freqs", "gtr_freqs", "cc_w"]
+DUPS = ["dupA_pre", "dupA_1", "dupA_2", "dupC_1", "dupC_2", "dupC_pre", "prior_dupT_1", "prior_dupT_2", "prior_dupT_pre",
+        "prior_dupV_1", "prior_dupV_2"]
 DISTS = ["normal", "prior_kappa", "prior_theta", "prior_tail", "prior_v_neg_int", "prior_v_long", "prior_v_bool",
          "prior_v_head"]
 
 
-def value_for(g: Graph, target: str, rng):
-    """a VALID new value (flat list + shape) for parameter `target` of any kind"""
+def value_for(g: Graph, target, rng):
+    """a VALID new value for parameter `target` (id or object) of any kind"""
     torch = _torch()
     from torchtree.core.parameter import CatParameter, Parameter, TransformedParameter, ViewParameter
 
-    o = g.dic[target]
+    o = g.dic[target] if isinstance(target, str) else target
     if isinstance(o, Parameter):
-        v = G.LEAVES[target][0](rng)
+        lid = g.name[g.idx[id(o)]]
+        v = G.LEAVES[lid][0](rng)
         return torch.tensor(v, dtype=torch.float64).reshape(o.tensor.shape)
     if isinstance(o, ViewParameter):
         pid = g.name[g.idx[id(o.parameter)]]
         full = torch.tensor(G.LEAVES[pid][0](rng), dtype=torch.float64).reshape(o.parameter.tensor.shape)
         return full[..., o.indices].clone()
     if isinstance(o, CatParameter):
-        parts = [value_for(g, g.name[g.idx[id(p)]], rng) for p in o._parameter_container.params()]
+        parts = [value_for(g, p, rng) for p in o._parameter_container.params()]
         return torch.cat(parts, -1)
     if isinstance(o, TransformedParameter):
-        x = value_for(g, g.name[g.idx[id(o.x)]], rng)
-        return o.transform(x)
+        return o.transform(value_for(g, o.x, rng))
     raise ValueError(target)
 
 
 def settable_ids(g: Graph):
-    return [g.name[j] for j in range(len(g.nodes)) if j in g.name and g.setter(j) != "n"]
+    """named parameters with a public setter (inline constants such as `dupA_1.loc` are not updated)"""
+    return [g.name[j] for j in range(len(g.nodes)) if j in g.name and g.setter(j) != "n" and "." not in g.name[j]]
 
 
 class Runner:
@@ -601,7 +604,7 @@ class Runner:
                         ce.get(g.nodes[ce.owner])
                     except Exception as e:  # noqa: BLE001
                         raised, exc = True, exc_info(e)
-                self.ops_txt.append(" ".join(f"E{c}" for c in range(len(g.cells))))
+                self.ops_txt.append(",".join(f"E{c}" for c in range(len(g.cells))))
             elif kind == "draw":
                 d = g.dic[op["dist"]]
                 torch.manual_seed(op["seed"])
@@ -764,7 +767,7 @@ def gen_update(g: Graph, rng, k, grad_on=frozenset()):
         for _ in range(20):
             # (not on simplex-valued leaves: editing one element leaves the simplex, and a later
             # DirichletOperator would rightly refuse the value — that would be the harness's doing)
-            t = rng.choice([x for x in settable_ids(g) if x not in SIMPLEX and x != "mg_freqs"])
+            t = rng.choice([x for x in settable_ids(g) if x not in SIMPLEX and x not in ("mg_freqs", "mvn_cov")])
             if not (footprint(g, t) & grad_on):
                 return gen_reassign(g, rng, t)
     if r < 0.50:
@@ -1091,7 +1094,8 @@ def run(ck: Check):
         if t in G.LEAVES:
             v = value_for(g0, t, rng)
             singles.append({"op": "inplace", "target": t, "value": v.reshape(-1).tolist(), "shape": list(v.shape)})
-        singles.append(gen_reassign(g0, rng, t))  # in-place edit + the same tensor object assigned back
+        if t not in SIMPLEX and t not in ("mg_freqs", "mvn_cov"):  # one edited element would leave the valid set
+            singles.append(gen_reassign(g0, rng, t))  # in-place edit + the same tensor object assigned back
     for t in GRADABLE:
         singles.append({"op": "grad", "target": t, "value": True})
     for d in DISTS:
@@ -1104,8 +1108,8 @@ def run(ck: Check):
         singles.append({"op": "propose", "kind": kind, "params": ps, "seed": rng.randrange(1 << 30),
                         "ref": 1, "tune": 50.0 if kind == "dirichlet" else (0.5 if kind == "scaler" else 0.05)})
     if not ck.thorough():  # quick tier: every assignment target and every operator, a sample of the rest
-        keep = [u for u in singles if u["op"] in ("assign", "propose", "draw")]
-        for kind, n in (("inplace", 8), ("reassign", 10), ("grad", 5)):
+        keep = [u for u in singles if u["op"] in ("propose", "draw")]
+        for kind, n in (("assign", 34), ("inplace", 6), ("reassign", 8), ("grad", 4)):
             pool = [u for u in singles if u["op"] == kind]
             keep += rng.sample(pool, min(n, len(pool)))
         singles_run = keep
@@ -1143,18 +1147,44 @@ def run(ck: Check):
     for a, b in pairs[: (500 if ck.thorough() else 8)]:
         handle([{"op": "evalall"}, dict(a), dict(b)], "exhaustive/warm+2")
     # cold start (flags as the constructors leave them), every single update
-    for u in singles[:: (1 if ck.thorough() else 14)]:
+    for u in singles[:: (1 if ck.thorough() else 22)]:
         if u["op"] != "propose":
             handle([dict(u)], "exhaustive/cold+1")
+    # several VALUE-EQUAL consumers of the same plain parameters (duplicate CatParameter / TransformedParameter /
+    # ViewParameter wrappers, prefix lists, both build orders): evaluate one consumer, update a shared leaf (or
+    # update THROUGH a twin), evaluate again — every consumer must follow
+    for m in DUPS:
+        em = {"op": "eval", "node": m, "cell": 0}
+        for lid in ("dup_a", "dup_b", "dup_c", "dup_d"):
+            if ck.thorough() or rng.random() < 0.35:
+                v = value_for(g0, lid, rng)
+                handle([dict(em), {"op": "assign", "target": lid, "value": v.reshape(-1).tolist(), "shape": list(v.shape)},
+                        dict(em)], "value-equal-consumers")
+    for d1, d2 in (("dupA_1", "dupA_2"), ("dupA_2", "dupA_pre"), ("dupC_2", "dupC_1"), ("dupC_pre", "dupC_2"),
+                   ("prior_dupT_1", "prior_dupT_2"), ("prior_dupV_1", "prior_dupV_2"), ("prior_dupV_2", "prior_dupV_1")):
+        handle([{"op": "evalall"}, {"op": "draw", "dist": d1, "seed": rng.randrange(1 << 30), "rsample": False},
+                {"op": "eval", "node": d2, "cell": 0}], "value-equal-consumers")
+    # ---- random histories
+    n_hist = 150 if ck.thorough() else 25
+    max_len = 40 if ck.thorough() else 12
+    for _ in range(n_hist):
+        L = rng.randint(2, max_len)
+        handle(gen_history(g0, rng, L), f"random/len<={((L - 1) // 10 + 1) * 10}")
+        if ck_time(ck) > (700 if ck.thorough() else 45):
+            ck.notes.append("stopped random histories at the time budget")
+            break
+
     # overlapping sibling views of one parameter (negative int, negative slices, LongTensor, bool mask; one
     # disjoint pair as control): a model attached to one view is evaluated, the value is assigned through
     # ANOTHER view (setter / edit+reassign / real operator / draw), the first must not stay stale
     vpairs = [(a, b) for a in G.VIEWS for b in G.VIEWS if a != b]
+    if not ck.thorough():
+        vpairs = rng.sample(vpairs, 18)
     for i, (va, vb) in enumerate(vpairs):
         ea = {"op": "eval", "node": "prior_" + va, "cell": 0}
         v = value_for(g0, vb, rng)
         ups = [{"op": "assign", "target": vb, "value": v.reshape(-1).tolist(), "shape": list(v.shape)}]
-        if ck.thorough() or i % 5 == 0:
+        if ck.thorough() or i % 6 == 0:
             ups.append(gen_reassign(g0, rng, vb))
             ups.append({"op": "draw", "dist": "prior_" + vb, "seed": rng.randrange(1 << 30), "rsample": False})
             if vb != "v_neg_int":
@@ -1203,16 +1233,6 @@ def run(ck: Check):
         handle([dict(ec), u, dict(ec)], "heights-only-observer")
         handle([dict(ec), u, {"op": "eval", "node": "ttree3", "cell": 1}, dict(ec)], "heights-only-observer")
 
-    # ---- random histories
-    n_hist = 150 if ck.thorough() else 30
-    max_len = 40 if ck.thorough() else 12
-    for _ in range(n_hist):
-        L = rng.randint(2, max_len)
-        handle(gen_history(g0, rng, L), f"random/len<={((L - 1) // 10 + 1) * 10}")
-        if ck_time(ck) > (700 if ck.thorough() else 68):
-            ck.notes.append("stopped random histories at the time budget")
-            break
-
     # ---- exhaustive short histories over a fixed operation alphabet on the tree-free sub-graph
     gs = Graph(G.initial_values(), flags_of_class, small=True)
     ck.extra["small_graph"] = {"nodes": len(gs.nodes), "cells": len(gs.cells), "classes": sorted(set(gs.cls))}
@@ -1230,7 +1250,7 @@ def run(ck: Check):
     depth2 = list(itertools.product(alphabet, repeat=2))
     if not ck.thorough():
         rng.shuffle(depth2)
-        depth2 = depth2[:80]
+        depth2 = depth2[:50]
     for i, (a, b) in enumerate(depth2):
         if i % 2 == 1:
             # DTYPE REGIME: torch's own default (float32) with float64 parameters, for every other history
